@@ -49,7 +49,8 @@ class DifferConfig:
             self.log.debug(
                 "DifferConfig::array_diff_mode:  Matched {}"
                 .format(diff_rule))
-            return ArrayDiffOpts.from_str(diff_rule)
+            if diff_rule.upper() in ArrayDiffOpts.get_names():
+                return ArrayDiffOpts.from_str(diff_rule)
         self.log.debug("DifferConfig::array_diff_mode:  NOT Matched")
         if hasattr(self.args, "arrays") and self.args.arrays:
             return ArrayDiffOpts.from_str(self.args.arrays)
